@@ -191,7 +191,11 @@ fn cart_operator(h: &H, idx: u64, rng: &mut Rng) {
     h.distinct(mix(hash_str(&def), idx));
     for _ in 0..30 {
         let lon = if rng.chance(0.1) { *rng.pick(&[0.0, PI, -PI, FRAC_PI_2, -FRAC_PI_2]) } else { rng.range(-PI, PI) };
-        let lat = catalog::edge_biased_exact(rng) * FRAC_PI_2;
+        let mut lat = catalog::edge_biased_exact(rng) * FRAC_PI_2;
+        if rng.chance(0.1) {
+            // millimetres to metres from the axis
+            lat = (FRAC_PI_2 - 10f64.powf(rng.range(-12.0, -5.0))) * if rng.chance(0.5) { 1.0 } else { -1.0 };
+        }
         // beyond 100 km the statement is the millimetre class, on the built-in ellipsoids
         let far = rng.chance(0.3) && !name.contains(',');
         let hgt = if far { rng.range(1.0e5, 1.0e7) * sz } else { rng.range(-1.0e4, 1.0e5) * sz };
